@@ -173,6 +173,10 @@ def build_mp(code):
         return qp.var(build_obs(o))
     if t == "p":
         return qp.probs(wires=PROBS[o]) if PROBS[o] is not None else qp.probs()
+    if t == "d":  # state-type measurements
+        return qp.density_matrix(wires=PROBS[o])
+    if t == "st":
+        return qp.state()
     if t == "s":
         return qp.sample(wires=PROBS[o]) if o in PROBS else qp.sample(build_obs(o))
     if t == "c":
@@ -194,6 +198,12 @@ def ref_value(code, state):
 
         axes = PROBS[o] if PROBS[o] is not None else list(range(NW))
         return R.probs_of(state, axes)
+    if t == "d":
+        from mc import refsim as R
+
+        return R.reduced_dm(state, PROBS[o])
+    if t == "st":
+        return v
     raise KeyError(code)
 
 
